@@ -72,9 +72,30 @@ def bounded_task(seed):
     return Task(f"{PROP}.Bd.reader", PROP, "reader", run)
 
 
+def call_site_task():
+    """FortranReader.__init__ hands its length_limit setting to the converter (a call-site obligation: the converter's contract is stated per limit)"""
+    def run():
+        import ast
+        fn = loader.find_def("ford.reader", "FortranReader.__init__")
+        calls = [n for n in ast.walk(fn) if isinstance(n, ast.Call) and ast.unparse(n.func) == "convertToFree"]
+        if len(calls) != 1:
+            return [OR(id=f"{PROP}.S.FortranReader.__init__.converter_gets_the_length_limit", status="unknown", kind="S", role="pre", backend="ast", target="ford.reader.FortranReader.__init__",
+                       detail=f"{len(calls)} calls of convertToFree")]
+        c = calls[0]
+        passed = (len(c.args) >= 2 and ast.unparse(c.args[1]) == "length_limit") or any(k.arg == "length_limit" and ast.unparse(k.value) == "length_limit" for k in c.keywords)
+        r = OR(id=f"{PROP}.S.FortranReader.__init__.converter_gets_the_length_limit", status=PROVED if passed else REFUTED, kind="S", role="pre", backend="ast",
+               target="ford.reader.FortranReader.__init__", desc="convertToFree(self.reader, length_limit): the fixed_length_limit setting reaches the fixed-form converter")
+        if not passed:
+            from bounded import c14
+            r.witness = {"call": ast.unparse(c)}
+            r.replay = c14.limit_off_case()
+        return [r]
+    return Task(f"{PROP}.S.call_site", PROP, "FortranReader.__init__", run)
+
+
 def build(tier, seed):
     set_tier(tier)
-    tasks = [a_task(PROP, _analyse), bounded_task(seed)]
+    tasks = [a_task(PROP, _analyse), call_site_task(), bounded_task(seed)]
     meta = {
         "trusted_base": TRUSTED_BASE,
         "assumptions": PYVC_ASSUMPTIONS + [
